@@ -333,3 +333,7 @@ pub proof fn lemma_accepted_ready(s: Seq<char>, n: HctlTreeNode, g: &SymbolicAsy
 pub open spec fn result_ok(g: &SymbolicAsyncGraph, s: Seq<char>, ext: bool, r: ISet<Pt>) -> bool {
     exists|t: STree| accepted(s, ext, t) && #[trigger] ok(g, r, sem(t, steady_set()))
 }
+// the sanitised result: same points, expressed without auxiliary variables (C15)
+pub open spec fn clean_result_ok(g: &SymbolicAsyncGraph, s: Seq<char>, ext: bool, r: &GraphColoredVertices) -> bool {
+    result_ok(g, s, ext, gv(r)) && canonical_set(r)
+}
